@@ -280,7 +280,14 @@ func TestStandinGroups(t *testing.T) {
 			})
 		}
 		lc, lf, ln, ls := 0, 0, 0, 0
+		curMode := ""
+		defer func() {
+			if r := recover(); r != nil {
+				panic(fmt.Sprintf("pattern=%q mode=%s text=%q: %v", pat, curMode, text, r)) // xguard reports it
+			}
+		}()
 		for _, mode := range modes {
+			curMode = mode.name
 			if hasP && mode.opt&RE2 == 0 {
 				continue // (?P<name> is RE2 syntax
 			}
